@@ -235,6 +235,9 @@ def compare(ex, st: State, op, a: V, b: V, node):
 
 def contains(ex, st: State, cont: V, item: V, node):
     cont = ex.concrete_kind(st, cont, ('ref', 'str', 'bytes'))
+    d = ex.dunder(st, cont, '__contains__')
+    if d is not None:
+        return [(s, r if isinstance(r, Raise) else truthy(r, s)) for s, r in ex.call(st, d, [item], {}, node)]
     if cont.kind == 'tuple':
         if not cont.py:
             return [(st, z3.BoolVal(False))]
@@ -322,7 +325,16 @@ def container_cls(ex, st, o: V):
     if isinstance(o.cls, tuple) and ex.ctx.is_dict_subclass(o.cls):
         return 'dict'
     if hasattr(ex.ctx, 'container_kind'):
-        return ex.ctx.container_kind(o)
+        h = ex.ctx.container_kind(o)
+        if h is not None:
+            return h
+    if o.cls is None:
+        # dynamic class: ask the path condition (type invariants of the pre-state)
+        c = z3.Select(st.get_arr('C'), o.e)
+        for kind in ('list', 'dict', 'set'):
+            if ex.entails(st, c == ex.ctx.builtin_class_ids[kind]):
+                o.cls = kind
+                return kind
     return None
 
 
